@@ -152,6 +152,8 @@ class Script:
             numrecs = m.numrecs
 
             def chk(r, rank, snapshot=snapshot, numrecs=numrecs):
+                if r.get('hex') == 'TOOBIG':
+                    return (('file_size', 'file', 'unexpectedly large'), 'file is %s bytes, far larger than its content needs' % r.get('size'))
                 try:
                     f = cdf.decode(bytes.fromhex(r.get('hex', '')), with_data=True, strict=True)
                 except cdf.CDFError as e:
